@@ -104,6 +104,8 @@ def project(ps):
 
 def spec_projection(psig):
     out = {}
+    if not isinstance(psig, dict):      # TLC prints the empty function as []
+        return out
     for a, ms in psig.items():
         out[a] = {}
         for m, fs in (ms or {}).items() if isinstance(ms, dict) else []:
